@@ -279,8 +279,9 @@ Qed.
 
 (* OUTSIDE wf_cell (identifiers "n" and "N" differ only in case; everything else holds): the
    bits of bus "b" are merged into the cable found under identifier "N" ~ "n", i.e. into bus
-   "a". What comes back is ONE cable "a" with wires [[3]; [1; 4]; [2]]: b[0] is PREPENDED
-   (index = lower), b[1] is joined to position 1. The case-insensitive NoDup is needed. *)
+   "a". What comes back is ONE cable "a" with wires [[1; 3]; [2; 4]]: b[0] is joined to position
+   0, b[1] to position 1 (before the repair of K11 b[0] was PREPENDED: [[3]; [1; 4]; [2]]).
+   The case-insensitive NoDup is needed. *)
 Example cell_nets_collision_ident :
   let cabs : list (entry nat) :=
     [(s2l "a", s2l "n", mkcab 0%N false [[1]; [2]]%nat);
@@ -289,7 +290,7 @@ Example cell_nets_collision_ident :
   /\ Forall (fun e => scalar_entry e \/ bus_entry e) cabs
   /\ ~ NoDup (map (fun e => lower (e_ident e)) cabs)
   /\ read_nets [] (emit_nets cabs) =
-       Some [(s2l "a", s2l "n", mkcab 0%N true [[3]; [1; 4]; [2]]%nat)]
+       Some [(s2l "a", s2l "n", mkcab 0%N true [[1; 3]; [2; 4]]%nat)]
   /\ read_nets [] (emit_nets cabs) <> Some (map norm_entry cabs).
 Proof.
   cbv zeta. split; [|split; [|split; [|split; [|split]]]].
